@@ -265,12 +265,15 @@ def _rename_locals(fn: ast.FunctionDef, template) -> None:
     a = [s for s, _ in template]
     b = [s for s, _ in cur]
     mapping = {}
+    known_names = {x for _s, ns in template for x in ns}
     for blk in difflib.SequenceMatcher(None, a, b, autojunk=False).get_matching_blocks():
         for k in range(blk.size):
             tn, cn = template[blk.a + k][1], cur[blk.b + k][1]
             if len(tn) != len(cn):
                 continue
             for x, y in zip(tn, cn):
+                if y in known_names:
+                    continue                     # a name the reference tree uses keeps its meaning (statements may just have moved)
                 if y != x:
                     if mapping.get(y, x) != x:
                         return                       # inconsistent: leave the function alone
